@@ -23,6 +23,8 @@ type Env struct {
 	pkg    *types.Package
 	guard  string // guard under which loads happen (for type assumptions)
 	depth  int
+	skRoot string // identity of the clause instance being translated (stable skolem names)
+	skCnt  *int
 }
 
 type exprError struct{ msg string }
@@ -74,7 +76,19 @@ func (t *FnTrans) Formula(f Formula, pol bool) (term string, err error) {
 			panic(r)
 		}
 	}()
-	return f.Env.formula(f.Clause.Expr, pol), nil
+	cnt := 0
+	env := *f.Env
+	env.skRoot = fmt.Sprintf("%p/%p", f.Clause, f.Env)
+	env.skCnt = &cnt
+	if f.Env.old == f.Env {
+		env.old = &env
+	} else if f.Env.old != nil {
+		o := *f.Env.old
+		o.skRoot, o.skCnt = env.skRoot, env.skCnt
+		o.old = &o
+		env.old = &o
+	}
+	return env.formula(f.Clause.Expr, pol), nil
 }
 
 func (e *Env) formula(x ast.Expr, pol bool) string {
@@ -187,7 +201,19 @@ func (e *Env) quant(n *ast.CallExpr, isForall bool, pol bool) string {
 	inRange := func(c string) string { return and(t.cmpIdx("<=", lo, c), t.cmpIdx("<", c, hi)) }
 	// forall in goal position / exists in hypothesis position: skolemise
 	if isForall == pol {
-		sk := t.declare(t.fresh("sk."+id.Name), t.mode.idxSort())
+		// stable skolem constant per quantifier occurrence of this clause instance
+		key := ""
+		if e.skCnt != nil {
+			*e.skCnt++
+			key = fmt.Sprintf("%s#%d", e.skRoot, *e.skCnt)
+		}
+		sk, ok := t.skCache[key]
+		if !ok || key == "" {
+			sk = t.declare(t.fresh("sk."+id.Name), t.mode.idxSort())
+			if key != "" {
+				t.skCache[key] = sk
+			}
+		}
 		t.idxTerms[sk] = true
 		body := e.with(map[string]Val{id.Name: scalar(intT, sk)}).formula(n.Args[3], pol)
 		if isForall {
@@ -261,11 +287,11 @@ func (e *Env) specEnv(sp *SpecFn, n *ast.CallExpr) *Env {
 		}
 		vars[p.Name] = v
 	}
-	ne := &Env{t: e.t, st: e.st, vars: vars, pkg: e.t.W.pkgByPath(sp.Pkg, e.pkg), guard: e.guard, depth: e.depth + 1}
+	ne := &Env{t: e.t, st: e.st, vars: vars, pkg: e.t.W.pkgByPath(sp.Pkg, e.pkg), guard: e.guard, depth: e.depth + 1, skRoot: e.skRoot, skCnt: e.skCnt}
 	if e.old == e {
 		ne.old = ne
 	} else if e.old != nil {
-		ne.old = &Env{t: e.t, st: e.old.st, vars: vars, pkg: ne.pkg, guard: e.guard, depth: e.depth + 1}
+		ne.old = &Env{t: e.t, st: e.old.st, vars: vars, pkg: ne.pkg, guard: e.guard, depth: e.depth + 1, skRoot: e.skRoot, skCnt: e.skCnt}
 		ne.old.old = ne.old
 	}
 	return ne
